@@ -117,9 +117,9 @@ def strategy_(draw, tier):
             what = pick(draw, ["root", "cls", "list", "opt", "map"])
             i = pick(draw, cls)
             conv = None
-            if dcs and len(cls) >= 2 and chance(draw, 0.45):
+            if dcs and chance(draw, 0.45):
                 a = pick(draw, dcs)
-                b_ = pick(draw, [j for j in cls if j != a])
+                b_ = pick(draw, [j for j in cls if j != a] + ["str", "root"])
                 conv = [a, b_]
                 if chance(draw, 0.7):
                     i = a
@@ -377,7 +377,8 @@ def _multi_entry(case, ctx, b, prog, opts):
         tp = {"root": b.root, "cls": k, "list": List[k], "opt": Optional[k], "map": Dict[str, k]}[e["what"]]
         conv = None
         if e["conv"]:
-            a, c = cls_of(e["conv"][0]), cls_of(e["conv"][1])
+            a = cls_of(e["conv"][0])
+            c = str if e["conv"][1] == "str" else b.root if e["conv"][1] == "root" else cls_of(e["conv"][1])
             conv = Conversion(_ident, source=a, target=c) if opts["entry"] == "serialization" else Conversion(_ident, source=c, target=a)
         entries.append((tp, conv))
     fn = deserialization_schema if opts["entry"] == "deserialization" else serialization_schema
@@ -388,6 +389,7 @@ def _multi_entry(case, ctx, b, prog, opts):
             inline = json.loads(json.dumps(fn(tp, conversion=conv, all_refs=True, **base))).get("$defs", {})
             for name, d in inline.items():
                 if name in union and union[name] != d:
+                    ctx.h("multi_entry:entries_disagree")
                     return  # the entries do not agree on that name (conversion seen from two contexts): no single expected answer
                 union[name] = d
     except Exception:
